@@ -232,3 +232,12 @@ func Run(h func()) (outcome string) {
 	h()
 	return "ok"
 }
+
+// Repeat is 1 inside the symbolic executor (map iteration order is explored as a
+// forked permutation there) and n natively, where Go randomises map order and an
+// order-dependent result only shows up after several tries.
+func Repeat(n int) int { return n }
+
+// NondetMapOrderAt(k): inside the executor only the k-th map iteration from now on takes a
+// forked permutation (bounding the product over many loops); natively a no-op.
+func NondetMapOrderAt(k int) {}
